@@ -41,6 +41,9 @@ def run(idx: Index, rep: Report, tier: str):
     check_encoder_args(idx, rep)
     check_circuit_assembly(idx, rep)
     check_deflation(idx, rep)
+    # operator_expectation("N" | "Sz" | "S^2") evaluates the built-in operators: they have to be the physical ones
+    from . import C12
+    C12.check_symmetry_operators(idx, rep, "quick")
 
 
 def check_restore(idx: Index, rep: Report):
